@@ -10,6 +10,7 @@ import Mahotas.Proofs.C07Dilate
 import Mahotas.Proofs.C07Currank
 import Mahotas.Proofs.C07Float
 import Mahotas.Proofs.C07FloatBound
+import Mahotas.Proofs.C07Mean
 import Mahotas.Proofs.C07Defined
 import Mahotas.Proofs.C07Majority
 import Mahotas.Properties.C01
@@ -680,6 +681,40 @@ example :
   refine ⟨e, by unfold uRnd; norm_num, ?_⟩
   rw [e] at h
   exact h.2.1
+
+/-- **C07-R4e (`mean_filter` in double is the correctly rounded exact mean).** `meanAtG` is `mean_filter<T>` generic in
+the arithmetic (`double sum = 0; sum += val` over the gathered samples in scan order, then `sum / n`); the driver runs it
+with binary64 operations (kind `meanf`, compared bit for bit with the real output on arbitrary finite float values). At
+`Int` its samples are those of `gather`. With operations rounded to nearest with a 53-bit significand (`Rounding rnd`), on
+an integer-valued image (positive axis lengths) whose selected samples have magnitudes summing to at most `2^53` (and a
+neighbourhood of at most `2^53` members), every addition is exact and the result is the ONE rounding of the exact quotient
+of the specification: `rnd (Σ samples / number of samples)` — what the harness computes as `float(Fraction(sum, n))`. -/
+theorem C07_mean_double_exact (rnd : ℚ → ℚ) (hr : Mahotas.C05.Rounding rnd) (m : Mode) (f : Img Int)
+    (hs : ∀ d ∈ f.shape, 0 < d) (fp : List (List Int)) (p : List Int)
+    (hb : absSum (specSamples m f fp p) ≤ 2 ^ 53) (hn : (fp.length : Int) ≤ 2 ^ 53) :
+    gatherG 0 m f fp p = specSamples m f fp p ∧
+    meanAtG (ratMeanOps rnd) m (castImg f) fp p =
+      rnd (((meanSpecParts m f fp p).1 : ℚ) / ((meanSpecParts m f fp p).2 : ℚ)) := by
+  refine ⟨(gatherG_int m f fp p).trans (gather_eq_specSamples m f hs fp p), ?_⟩
+  rw [← C07_mean_exact m f hs fp p]
+  rw [← gather_eq_specSamples m f hs fp p] at hb
+  exact meanAtG_rat_exact rnd hr m f fp p hb hn
+
+/-- non-vacuity: binary64 rounding, the 3×3 cross at the corner of the 2×2 image in `ignore` mode: samples 7, 1, 5,
+    magnitudes sum to 13, result = the rounding of 13/3 -/
+example :
+    let f : Img Int := { shape := [2, 2], data := #[7, 1, 5, 3] }
+    let fp := footprint [3, 3] #[0, 1, 0, 1, 1, 1, 0, 1, 0]
+    absSum (specSamples .ignore f fp [0, 0]) = 13 ∧
+    meanAtG (ratMeanOps Mahotas.C05.rne53) .ignore (castImg f) fp [0, 0] = Mahotas.C05.rne53 (13 / 3) := by
+  intro f fp
+  have ha : absSum (specSamples .ignore f fp [0, 0]) = 13 := by decide
+  refine ⟨ha, ?_⟩
+  have h := (C07_mean_double_exact _ Mahotas.C05.rne53_rounding .ignore f (by decide) fp [0, 0]
+    (by rw [ha]; norm_num) (by decide)).2
+  rw [h]
+  have : meanSpecParts .ignore f fp [0, 0] = (13, 3) := by decide
+  rw [this]; norm_num
 
 /-- **C07-R4d (`majority_filter`, closed form of the loops).** For a 2-D image `rows × cols` and window size `N` (the
 wrapper replaces an even `N` by `N + 1`, `majorityN`), `py_majority_filter` — output cleared, nothing done when
